@@ -132,7 +132,7 @@ impl<'s> LowerState<'s> {
                             let nt_type = self.types.nonterminal_type(nt_name).clone();
                             let symbols = self.symbols(&alt.expr.symbols);
 
-                            self.action_kind(nt_type, &alt.expr, &symbols, alt.action)
+                            self.action_kind(nt_type, alt.span, &alt.expr, &symbols, alt.action)
                                 .map(|action| r::Production {
                                     nonterminal: nt_name.clone(),
                                     span: alt.span,
@@ -239,7 +239,7 @@ impl<'s> LowerState<'s> {
                     )],
                 };
                 let symbols = vec![r::Symbol::Nonterminal(nt.name.clone())];
-                self.action_fn(nt_type, false, &expr, &symbols, None)
+                self.action_fn(nt_type, false, nt.span, &expr, &symbols, None)
                     .map(|action_fn| {
                         let production = r::Production {
                             nonterminal: fake_name.clone(),
@@ -298,6 +298,7 @@ impl<'s> LowerState<'s> {
     fn action_kind(
         &mut self,
         nt_type: r::TypeRepr,
+        span: Span,
         expr: &pt::ExprSymbol,
         symbols: &[r::Symbol],
         action: Option<pt::ActionKind>,
@@ -306,12 +307,12 @@ impl<'s> LowerState<'s> {
             Some(pt::ActionKind::Lookahead) => Ok(self.lookahead_action_fn()),
             Some(pt::ActionKind::Lookbehind) => Ok(self.lookbehind_action_fn()),
             Some(pt::ActionKind::User(string)) => {
-                self.action_fn(nt_type, false, expr, symbols, Some(string))
+                self.action_fn(nt_type, false, span, expr, symbols, Some(string))
             }
             Some(pt::ActionKind::Fallible(string)) => {
-                self.action_fn(nt_type, true, expr, symbols, Some(string))
+                self.action_fn(nt_type, true, span, expr, symbols, Some(string))
             }
-            None => self.action_fn(nt_type, false, expr, symbols, None),
+            None => self.action_fn(nt_type, false, span, expr, symbols, None),
         }
     }
 
@@ -339,6 +340,7 @@ impl<'s> LowerState<'s> {
         &mut self,
         nt_type: r::TypeRepr,
         fallible: bool,
+        span: Span,
         expr: &pt::ExprSymbol,
         symbols: &[r::Symbol],
         action: Option<String>,
@@ -436,11 +438,12 @@ impl<'s> LowerState<'s> {
 
                         // Alternatively, one could pass in the action span
                         // information instead of just the action string.
-                        let span_start = anon_symbols.first().unwrap().1.span;
-
-                        let span_end = anon_symbols.last().unwrap().1.span;
-
-                        let symbols_span = Span(span_start.0, span_end.1);
+                        // An empty alternative has no symbol to point at:
+                        // report the whole alternative then.
+                        let symbols_span = match (anon_symbols.first(), anon_symbols.last()) {
+                            (Some(first), Some(last)) => Span(first.1.span.0, last.1.span.1),
+                            _ => span,
+                        };
 
                         return_err!(
                             symbols_span,
